@@ -72,7 +72,7 @@ static Decoded run_decoder(int kind, const Bytes &file, uint32_t flags, lzma_fil
 }
 
 // ------------------------------------------------------------ synth .xz
-struct SynthXz { Bytes file, plain; unsigned lz_features = 0; };
+struct SynthXz { Bytes file, plain; unsigned lz_features = 0; bool invalid_by_construction = false; };
 
 static void synth_xz(ref::SynthRng &rng, SynthXz &x, bool allow_unsupported_check)
 {
@@ -83,7 +83,7 @@ static void synth_xz(ref::SynthRng &rng, SynthXz &x, bool allow_unsupported_chec
 		if (allow_unsupported_check && rng.chance(80)) check = (int)rng.below(16);
 		// now and then a well-formed file (all CRC32s right) that uses reserved
 		// or unknown features: the decoder must refuse it
-		int twist = allow_unsupported_check && rng.chance(120) ? 1 + (int)rng.below(5) : 0;
+		int twist = allow_unsupported_check && rng.chance(150) ? 1 + (int)rng.below(6) : 0;
 		uint8_t sres = twist == 1 ? (uint8_t)(0x10 << rng.below(4)) : 0;
 		ref::write_stream_header(x.file, check, sres);
 		int nblocks = (int)rng.below(5);
@@ -130,7 +130,10 @@ static void synth_xz(ref::SynthRng &rng, SynthXz &x, bool allow_unsupported_chec
 			recs.push_back({ unpadded, p.size() });
 			x.plain.insert(x.plain.end(), p.begin(), p.end());
 		}
-		ref::write_index_and_footer(x.file, recs, check, sres);
+		// twist 6: an Index field in a longer-than-shortest encoding (right value): invalid per section 1.2
+		if (twist == 6) x.invalid_by_construction = true;
+		if (twist == 6) ref::write_index_and_footer(x.file, recs, check, sres, 1 + (unsigned)rng.below(2 * recs.size() + 1), 1 + (unsigned)rng.below(2), rng.chance(700));
+		else ref::write_index_and_footer(x.file, recs, check, sres);
 		if (s + 1 < nstreams || rng.chance(200)) x.file.insert(x.file.end(), 4 * (size_t)rng.below(5), 0);
 	}
 }
@@ -198,6 +201,7 @@ static void c03_exec(const Plan &plan, Verdict &v)
 	}
 	SynthXz x;
 	synth_xz(srng, x, true);
+	if (x.invalid_by_construction) { faulted = true; v.count("fault.overlong_vli_in_index"); }
 	if (srng.illegal_emitted) { faulted = true; v.count("fault.illegal_distance_symbol", srng.illegal_emitted); }
 	Bytes file = x.file;
 	for (auto &op : plan.ops) if (op.name == "sfault") apply_one_fault(op, file, &v);
